@@ -20,6 +20,7 @@ func propC11(c *Ctx) {
 	t := c.Tables()
 	c.ruleC11Table(t)
 	c.ruleC11WalkUp()
+	c.ruleC11PlacementPaths()
 	c.ruleC11Close()
 	c.ruleC10CopyReset() // the paste pass re-runs the same context resolution on copies
 	if m := c.E1Base(); m != nil {
